@@ -76,7 +76,8 @@ def _one(args):
             if vtype != "sympy" and k == 1:
                 N = min(N, 4)
             inst = hermitian.gen_instance(rng, d=d, k=k, N=N, vtype=vtype,
-                                          corner="zero_block" if idx < 6 else None)
+                                          corner="zero_block" if idx < 6 else
+                                          "degenerate_fd" if idx < 12 and d >= 4 else None)
         except Regenerate:
             continue
         desc = hermitian.describe(inst)
